@@ -1,11 +1,14 @@
 import Driver.Reader
 import Driver.Producer
+import Driver.Locks
 open Driver
 
 def handle (line : String) : String :=
   match line.trimAscii.toString.splitOn " " with
   | ["reader", buf, ops] => readerLine buf ops
   | ["reader", buf] => readerLine buf ""
+  | ["cachestress", seed, g, overlap, _, _] => locksLine false seed g overlap
+  | ["cachestress9", seed, g, overlap, _, _] => locksLine true seed g overlap
   | ["producer", proto, rm, seed, n, events] => producerLine proto rm seed n events
   | _ => "bad-op"
 
